@@ -771,6 +771,90 @@ static void generate(Plan &plan, uint64_t seed, int tier) {
         keys.push_back(ascii("abc"));
         keys.push_back(ascii("a"));
     }
+    if (cfg.chance(1, 4)) {
+        // phase-structured history on one table: membership changes in bulk, then the operations that rebuild or
+        // reuse the chains right after them (faults placed after a membership change, not uniformly)
+        plan.cfg["scenario"] = 1;
+        int  j    = (int)cfg.below(3);
+        auto push = [&](int kind, const U32 &k1, const U32 &k2, int64_t a2) {
+            Op op;
+            op.kind = kind;
+            op.a[0] = j;
+            op.a[1] = (int64_t)ops.below(3);
+            if (op.a[1] == j) op.a[1] = (j + 1) % 3;
+            op.a[2] = a2;
+            op.a[3] = (int64_t)(1 + ops.below(60000));
+            op.a[4] = 1;
+            op.s.push_back(pack_units(k1));
+            op.s.push_back(pack_units(k2));
+            plan.ops.push_back(op);
+        };
+        std::vector<U32> live;
+        if (cfg.chance(2, 3)) push(H_CTOR_SIZE, U32(), U32(), (int64_t)(1 + cfg.below(9)));
+        // skeletons of suspicious orders (each step kept with probability 4/5, random phases mixed in)
+        static const int skeletons[][8] = {
+            {0, 2, 4, 5, 0, 3, 10, -1},  // fill, remove all, sort, clear, fill, remove some, lookup
+            {0, 3, 4, 0, 6, 10, -1, -1}, // fill, remove some, sort, fill, rename, lookup
+            {0, 2, 5, 0, 6, 3, 10, -1},  // fill, remove all, clear, fill, rename, remove some, lookup
+            {0, 3, 8, 0, 3, 7, 10, -1},  // fill, remove some, merge/copy, fill, remove some, compress/expect, lookup
+            {0, 2, 4, 0, 3, 9, 10, -1},  // fill, remove all, sort, fill, remove some, resize, lookup
+            {0, 3, 9, 0, 4, 3, 10, -1},  // fill, remove some, resize, fill, sort, remove some, lookup
+        };
+        std::vector<int> order;
+        if (cfg.chance(2, 3)) {
+            const int *sk = skeletons[cfg.below(6)];
+            for (int i = 0; i < 8 && sk[i] >= 0; i++) {
+                if (cfg.chance(4, 5)) order.push_back(sk[i]);
+                if (cfg.chance(1, 5)) order.push_back((int)cfg.below(11));
+            }
+        } else {
+            size_t phases = 3 + (size_t)cfg.below(6);
+            for (size_t ph = 0; ph < phases; ph++) order.push_back((int)cfg.below(11));
+        }
+        for (int phase : order) {
+            switch (phase) {
+                case 0:
+                case 1: { // fill
+                    size_t n = 1 + (size_t)ops.below(6);
+                    for (size_t i = 0; i < n; i++) {
+                        const U32 &k = keys[ops.below(keys.size())];
+                        push(ops.chance(1, 2) ? H_INSERT : H_GET, k, U32(), (int64_t)ops.below(8));
+                        if (std::find(live.begin(), live.end(), k) == live.end()) live.push_back(k);
+                    }
+                    break;
+                }
+                case 2: { // remove everything that is stored
+                    for (auto &k : live) push(H_REMOVE, k, U32(), (int64_t)ops.below(3));
+                    live.clear();
+                    break;
+                }
+                case 3: { // remove some
+                    for (size_t i = 0; i < live.size();) {
+                        if (ops.chance(1, 2)) {
+                            push(H_REMOVE, live[i], U32(), (int64_t)ops.below(3));
+                            live.erase(live.begin() + (long)i);
+                        } else
+                            i++;
+                    }
+                    break;
+                }
+                case 4: push(H_SORT, U32(), U32(), (int64_t)ops.below(2)); break;
+                case 5: push(H_CLEAR, U32(), U32(), 0); live.clear(); break;
+                case 6: {
+                    if (live.empty()) break;
+                    const U32 &from = live[ops.below(live.size())];
+                    const U32 &to   = keys[ops.below(keys.size())];
+                    push(H_RENAME, from, to, (int64_t)ops.below(2));
+                    break; // (the model decides whether it succeeded; 'live' is only a generation aid)
+                }
+                case 7: push(ops.chance(1, 2) ? H_COMPRESS : H_EXPECT, U32(), U32(), (int64_t)ops.below(6)); break;
+                case 8: push(ops.chance(1, 2) ? H_MERGE_COPY : H_COPY_ASSIGN, U32(), U32(), 0); break;
+                case 9: push(H_RESIZE, U32(), U32(), (int64_t)ops.below(10)); break;
+                default: push(H_LOOKUP, keys[ops.below(keys.size())], U32(), (int64_t)ops.below(3));
+            }
+        }
+        return;
+    }
     size_t nops = 4 + (size_t)cfg.below(tier ? 110 : 70);
     if (cfg.chance(1, 4)) nops = 2 + (size_t)cfg.below(10);
     uint64_t emphasis = cfg.next();
